@@ -17,6 +17,7 @@ RULE = ('exhaustive per shipped code ((5,2,3)) ((4,2,2)) ((4,4,2)) ((6,4,2)) ((8
         'Every (code, error) pair is non-trivial and distinct.'
         ' Code words also in other memory layouts and as torch tensors (K=2,4); enumerator_history: weight enumerators of arbitrary random subspaces, several calls in a row with the same n and different K, each against the brute-force Pauli sum.'
         ' generate_code_np called again on the same circuit object; use_tqdm=True gives the same enumerators.')
+RULE += ' Quick tier: the structural part (orthonormal code words, listed stabilizers fix them) of the thorough-only codes is judged as well.'
 ASSUMPTIONS = ['the strings a stabilizer circuit must implement are the list literal assigned right before ret["stabilizer"] in the source of each generate_code* function; '
                'if that pattern is not found the comparison is skipped (labelled) and only the structural clauses are judged',
                'Knill-Laflamme tolerance 1e-9 on amplitudes']
